@@ -145,6 +145,10 @@ class CallMixin:
         return VFunc('ext', name='%s.%s' % (m.name, attr), bound=None)
 
     def class_attr(self, st, c, attr, node):
+        if c.pyobj is None:
+            pc = self.pyclass(c.key)
+            if pc is not None:
+                c = VFunc('class', pyobj=pc, key=c.key)
         if c.pyobj is not None and hasattr(c.pyobj, attr):
             obj = getattr(c.pyobj, attr)
             import types
